@@ -17,7 +17,7 @@ namespace Cnl.Drv
 open Cnl Cnl.Charconv Cnl.Spec
 
 /-- text of a successful implementation result -/
-def implText (len : Nat) (res : String) : Option (List Char) :=
+def tcImplText (len : Nat) (res : String) : Option (List Char) :=
   match parseImplTCR res with
   | some r =>
     match r.ok, r.ptr with
@@ -25,7 +25,7 @@ def implText (len : Nat) (res : String) : Option (List Char) :=
     | _, _ => none
   | none => none
 
-def intDenotes (base : Nat) (v : Int) (text : List Char) : Bool :=
+def tcIntDenotes (base : Nat) (v : Int) (text : List Char) : Bool :=
   match numeralValue base text with
   | some (neg, mag) =>
     let digits := if neg then text.drop 1 else text
@@ -34,7 +34,7 @@ def intDenotes (base : Nat) (v : Int) (text : List Char) : Bool :=
   | none => false
 
 /-- is exactness demanded (expansion of at most 18 significant digits whose shortest text fits)? -/
-def exactDemanded (num den : Nat) (neg : Bool) (len : Nat) : Bool :=
+def tcExactDemanded (num den : Nat) (neg : Bool) (len : Nat) : Bool :=
   match finiteExpansion num den 200 0 with
   | some (m, x) =>
     let (m', z) := stripZeros 200 m
@@ -42,29 +42,29 @@ def exactDemanded (num den : Nat) (neg : Bool) (len : Nat) : Bool :=
     decide (n ≤ 18) && decide ((if neg then 1 else 0) + shortestExactLen n (x + z) ≤ len)
   | none => false
 
-def shortExpansion (num den : Nat) : Bool :=
+def tcShortExpansion (num den : Nat) : Bool :=
   match finiteExpansion num den 200 0 with
   | some (m, _) => decide (numDigits10 200 (stripZeros 200 m).1 ≤ 18)
   | none => false
 
-def scDenotes (T : IntTy) (e : Int) (radix : Nat) (rep : Int) (len : Nat) (text : List Char) : Bool :=
+def tcScDenotes (T : IntTy) (e : Int) (radix : Nat) (rep : Int) (len : Nat) (text : List Char) : Bool :=
   match decimalValue text with
   | none => false
   | some d =>
     if rep = 0 then d.mant == 0 && !d.neg
     else
       let (num, den) := exactFrac rep.natAbs radix e
-      let short := shortExpansion num den
+      let short := tcShortExpansion num den
       let allowNum := if short then 0 else (e.natAbs + 1) * 100
       (d.neg == decide (rep < 0)) && d.within num den allowNum (sigTy T).max.toNat &&
-        (!(exactDemanded num den (decide (rep < 0)) len) || d.exactly num den)
+        (!(tcExactDemanded num den (decide (rep < 0)) len) || d.exactly num den)
 
 /-- known-defect class of C14: an expansion of at most 18 significant digits is not printed exactly because
 `descale` took a lossy division (only 64-bit and wider reps can reach it) -/
-def lossyShort (T : IntTy) (e : Int) (radix : Nat) (rep : Int) : Bool :=
+def tcLossyShort (T : IntTy) (e : Int) (radix : Nat) (rep : Int) : Bool :=
   match descale (sigTy T) rep e radix with
   | .ok d => decide (d.lossy > 0) &&
-      (let (num, den) := exactFrac rep.natAbs radix e; shortExpansion num den)
+      (let (num, den) := exactFrac rep.natAbs radix e; tcShortExpansion num den)
   | _ => false
 
 def checkC14 (toks : List String) (res : String) : Option Verdict := do
@@ -75,42 +75,42 @@ def checkC14 (toks : List String) (res : String) : Option Verdict := do
     let T ← parseIntTy t; let base ← base.toNat?; let len ← len.toNat?; let v ← v.toInt?
     let _ := T
     let spec : Option Bool :=
-      if tag.isEmpty then (implText len res).map (intDenotes base v)
+      if tag.isEmpty then (tcImplText len res).map (tcIntDenotes base v)
       else some false   -- the most negative value produces no numeral at all
     some { model := m, spec := spec, cls := cls, branch := br, nontrivial := spec.isSome }
   | ["sc", t, len, rep] =>
-    let .sc T e x ← parseTyK t | none
+    let .sc T e x ← parseTcTyK t | none
     let len ← len.toNat?; let rep ← rep.toInt?
     let spec : Option Bool :=
-      if tag.isEmpty then (implText len res).map (scDenotes T e x rep len)
+      if tag.isEmpty then (tcImplText len res).map (tcScDenotes T e x rep len)
       else some false
-    let cls := if cls.isEmpty && lossyShort T e x rep then "C14.lossy_rescaling_of_short_expansion" else cls
+    let cls := if cls.isEmpty && tcLossyShort T e x rep then "C14.lossy_rescaling_of_short_expansion" else cls
     some { model := m, spec := spec, cls := cls, branch := br, nontrivial := spec.isSome }
   | ["cap", _] => some { model := m, spec := none, branch := br, nontrivial := false }
   | ["fix", t, v] =>
     let v ← v.toInt?
-    let k ← parseTyK t
+    let k ← parseTcTyK t
     let good := match res.splitOn "|" with
       | [st, s, o, tc] =>
         (match st.splitOn ":" with
           | n :: rest =>
-            let arr := decChars (":".intercalate rest).toList
+            let arr := tcDecChars (":".intercalate rest).toList
             let n := n.toNat?.getD 0
             let txt := arr.take n
             (arr.drop n).all (· == Char.ofNat 0) && decide (arr.length > n) &&
-            txt == decChars s.toList && txt == decChars o.toList &&
+            txt == tcDecChars s.toList && txt == tcDecChars o.toList &&
             (match parseImplTCR tc with
               | some r =>
                 let len := r.bytes.length - 8
-                implText len tc == some txt &&
+                tcImplText len tc == some txt &&
                 (match k with
-                  | .int _ => intDenotes 10 v txt
-                  | .sc T e x => scDenotes T e x v len txt)
+                  | .int _ => tcIntDenotes 10 v txt
+                  | .sc T e x => tcScDenotes T e x v len txt)
               | none => false)
           | _ => false)
       | _ => false
     let cls := match k with
-      | .sc T e x => if cls.isEmpty && lossyShort T e x v then "C14.lossy_rescaling_of_short_expansion" else cls
+      | .sc T e x => if cls.isEmpty && tcLossyShort T e x v then "C14.lossy_rescaling_of_short_expansion" else cls
       | _ => cls
     some { model := m, spec := some good, cls := cls, branch := br }
   | _ => none
